@@ -47,43 +47,6 @@ Producers(pr, x)     == {i \in NodeIdx(pr) : x \in Names(pr.nodes[i].outputs)}
 FirstProducer(pr, x) == CHOOSE i \in Producers(pr, x) : \A j \in Producers(pr, x) : i <= j
 
 (***************************************************************************)
-(* Effective bindings and defaults (graph/input_spec.py                    *)
-(* _collect_bound_values, nodes/graph_node.py has_default_for, helpers.py  *)
-(* get_value_source).                                                      *)
-(***************************************************************************)
-InnerName(nd, p) == PairGet(nd.inmap, p)      \* wrapper input p -> name inside nd.sub
-
-RECURSIVE EffBoundHas(_, _), EffBoundVal(_, _)
-Exposes(pr, i, p) == /\ p \in Names(pr.nodes[i].inputs)
-                     /\ EffBoundHas(pr.nodes[i].sub, InnerName(pr.nodes[i], p))
-EffBoundHas(pr, p) == HasPair(pr.bound, p) \/ \E i \in GraphIdx(pr) : Exposes(pr, i, p)
-EffBoundVal(pr, p) ==
-  IF HasPair(pr.bound, p) THEN PairGet(pr.bound, p)
-  ELSE LET i == CHOOSE i \in GraphIdx(pr) :
-                   Exposes(pr, i, p) /\ \A j \in GraphIdx(pr) : Exposes(pr, j, p) => i <= j
-       IN EffBoundVal(pr.nodes[i].sub, InnerName(pr.nodes[i], p))
-
-RECURSIVE NodeHasDefault(_, _), ProgHasFallback(_, _)
-ProgHasFallback(pr, q) ==      \* the inner graph can supply q itself (binding or default)
-  \/ EffBoundHas(pr, q)
-  \/ \E i \in NodeIdx(pr) : q \in Names(pr.nodes[i].inputs) /\ NodeHasDefault(pr.nodes[i], q)
-NodeHasDefault(nd, p) ==
-  IF IsGraph(nd) THEN p \in Names(nd.inputs) /\ ProgHasFallback(nd.sub, InnerName(nd, p))
-  ELSE p \in Names(nd.defaults)
-
-RECURSIVE NodeDefaultVal(_, _), ProgFallbackVal(_, _)
-ProgFallbackVal(pr, q) ==
-  IF EffBoundHas(pr, q) THEN EffBoundVal(pr, q)
-  ELSE LET i == CHOOSE i \in NodeIdx(pr) :
-                   /\ q \in Names(pr.nodes[i].inputs) /\ NodeHasDefault(pr.nodes[i], q)
-                   /\ \A j \in NodeIdx(pr) :
-                        (q \in Names(pr.nodes[j].inputs) /\ NodeHasDefault(pr.nodes[j], q)) => i <= j
-       IN NodeDefaultVal(pr.nodes[i], q)
-NodeDefaultVal(nd, p) ==
-  IF IsGraph(nd) THEN ProgFallbackVal(nd.sub, InnerName(nd, p))
-  ELSE "dflt." \o PairGet(nd.pmap, p)         \* the default literal is keyed by the ORIGINAL parameter
-
-(***************************************************************************)
 (* Scope: with_entrypoint() narrows execution to the entry nodes and what  *)
 (* is reachable from them over the graph's edges (helpers.py               *)
 (* compute_active_node_set).  The edge relation mirrors graph/core.py:     *)
@@ -106,6 +69,69 @@ ReachFrom(E, S) == LET nxt == S \cup {e[2] : e \in {e \in E : e[1] \in S}}
 
 ActiveSet(pr) == IF pr.entry = <<>> THEN NodeIdx(pr)
                  ELSE ReachFrom(EdgeSet(pr), {IdxOf(pr, pr.entry[k]) : k \in 1..Len(pr.entry)})
+
+Unset == <<"~unset">>
+
+\* scope narrowing of the input contract (graph/input_spec.py _compute_active_scope): entry points narrow
+\* from the front, a selection narrows from the back (every target of a needed gate may run)
+Preds(E, S) == {e[1] : e \in {e \in E : e[2] \in S}}
+
+RECURSIVE NeededFor(_, _, _, _)
+NeededFor(pr, E, act, S) ==      \* backward closure of S inside act, with pessimistic gate expansion
+  LET back == Preds(E, S) \cap act
+      gates == {i \in S : IsGate(pr.nodes[i])}
+      tgts == {IdxOf(pr, t) : t \in UNION {Targets(pr, pr.nodes[g]) : g \in gates}} \cap act
+      down == ReachFrom({e \in E : e[1] \in act /\ e[2] \in act}, tgts) \cap act
+      nxt == S \cup back \cup tgts \cup down
+  IN IF nxt = S THEN S ELSE NeededFor(pr, E, act, nxt)
+
+ActiveFor(pr, selected) ==
+  LET fwd == ActiveSet(pr)
+  IN IF selected = Unset \/ selected = <<"**">> THEN fwd
+     ELSE LET prods == {i \in fwd : Names(pr.nodes[i].outputs) \cap Names(selected) # {}}
+          IN IF prods = {} THEN {} ELSE NeededFor(pr, EdgeSet(pr), fwd, prods)
+
+\* the scope in which graph.inputs (hence the effective bindings) is computed
+SpecActive(pr) == ActiveFor(pr, pr.selected)
+
+(***************************************************************************)
+(* Effective bindings and defaults (graph/input_spec.py                    *)
+(* _collect_bound_values, nodes/graph_node.py has_default_for, helpers.py  *)
+(* get_value_source).                                                      *)
+(***************************************************************************)
+InnerName(nd, p) == PairGet(nd.inmap, p)      \* wrapper input p -> name inside nd.sub
+
+RECURSIVE EffBoundHas(_, _), EffBoundVal(_, _)
+Exposes(pr, i, p) == /\ p \in Names(pr.nodes[i].inputs)
+                     /\ EffBoundHas(pr.nodes[i].sub, InnerName(pr.nodes[i], p))
+\* only wrappers in the graph's active scope (entry points, graph-level selection) surface their bindings
+EffBoundHas(pr, p) == HasPair(pr.bound, p) \/ \E i \in GraphIdx(pr) \cap SpecActive(pr) : Exposes(pr, i, p)
+EffBoundVal(pr, p) ==
+  IF HasPair(pr.bound, p) THEN PairGet(pr.bound, p)
+  ELSE LET A == GraphIdx(pr) \cap SpecActive(pr)
+           i == CHOOSE i \in A :
+                   Exposes(pr, i, p) /\ \A j \in A : Exposes(pr, j, p) => i <= j
+       IN EffBoundVal(pr.nodes[i].sub, InnerName(pr.nodes[i], p))
+
+RECURSIVE NodeHasDefault(_, _), ProgHasFallback(_, _)
+ProgHasFallback(pr, q) ==      \* the inner graph can supply q itself (binding or default)
+  \/ EffBoundHas(pr, q)
+  \/ \E i \in NodeIdx(pr) : q \in Names(pr.nodes[i].inputs) /\ NodeHasDefault(pr.nodes[i], q)
+NodeHasDefault(nd, p) ==
+  IF IsGraph(nd) THEN p \in Names(nd.inputs) /\ ProgHasFallback(nd.sub, InnerName(nd, p))
+  ELSE p \in Names(nd.defaults)
+
+RECURSIVE NodeDefaultVal(_, _), ProgFallbackVal(_, _)
+ProgFallbackVal(pr, q) ==
+  IF EffBoundHas(pr, q) THEN EffBoundVal(pr, q)
+  ELSE LET i == CHOOSE i \in NodeIdx(pr) :
+                   /\ q \in Names(pr.nodes[i].inputs) /\ NodeHasDefault(pr.nodes[i], q)
+                   /\ \A j \in NodeIdx(pr) :
+                        (q \in Names(pr.nodes[j].inputs) /\ NodeHasDefault(pr.nodes[j], q)) => i <= j
+       IN NodeDefaultVal(pr.nodes[i], q)
+NodeDefaultVal(nd, p) ==
+  IF IsGraph(nd) THEN ProgFallbackVal(nd.sub, InnerName(nd, p))
+  ELSE "dflt." \o PairGet(nd.pmap, p)         \* the default literal is keyed by the ORIGINAL parameter
 
 (***************************************************************************)
 (* Readiness (helpers.py get_ready_nodes).                                 *)
@@ -201,7 +227,6 @@ Record(st, nd, snap) ==
 (***************************************************************************)
 (* Result filtering (helpers.py filter_outputs).                           *)
 (***************************************************************************)
-Unset == <<"~unset">>
 EffSelect(pr, select) == IF select = Unset THEN pr.selected ELSE select
 FilterOut(pr, vals, select) ==
   LET eff == EffSelect(pr, select)
@@ -277,7 +302,8 @@ World0 == [ctr |-> EmptyMap, calls |-> <<>>, done |-> <<>>, lists |-> EmptyMap, 
 (* arguments by ORIGINAL parameter name: it may be served only to a node   *)
 (* with the same definition, the same arguments and the same outputs.      *)
 (***************************************************************************)
-CacheKey(nd, args) == <<nd.fid, nd.outputs, CallArgs(args)>>
+\* (for a gate the cached value is the chosen TARGET, so its targets belong to the identity as well)
+CacheKey(nd, args) == <<nd.fid, nd.outputs, nd.targets, CallArgs(args)>>
 CacheFind(cache, key) == {i \in 1..Len(cache) : cache[i].key = key}
 CacheTouch(cache, i) == SelectSeq([j \in 1..Len(cache) |-> IF j = i THEN [cache[j] EXCEPT !.key = <<"~moved">>] ELSE cache[j]],
                                   LAMBDA e : e.key # <<"~moved">>) \o <<cache[i]>>
